@@ -10,6 +10,13 @@ TRUSTED_BASE_COMMON = [
     "requestError, the pause / party / counter accessors of channel_state.go, the cache-seeding readers and the wiring of the block "
     "reports in channels.go), each proved equal to the hand-written model's definition in proofs/DecideEq.v; the translator refuses "
     "any statement or expression outside its subset",
+    "gen/GenHandlers.v: the manager's handlers (impl/utils.go, impl/restart.go, the API calls of impl/impl.go except the opening calls and "
+    "UpdateValidationStatus, every EventsHandler callback of impl/events.go, the request-handling core of impl/receiving_requests.go, and the "
+    "event methods of channels/channels.go) translated by tools/dt2coq/handlers.go, statement by statement, into programs over Node.v's "
+    "instruction set; proofs/HandlerEq.v proves each generated program equal in behaviour (same final interpreter state, same outputs, same "
+    "returned error class) to the hand-written program of Node.v the theorems are about, for every state and every oracle answer; the "
+    "translator skips logging / tracing / span-index statements and the transport-option and channel-monitor wiring (not in the node model), "
+    "orders a `go func(){...}()` after the rest of the function's effects (the order the harness forces) and refuses anything else",
     "correspondence harness /verif/harness (Go, built from /repo's working tree with -tags verif): doubles, printers of "
     "cases_*.v, canonicalisation; correspondence is differential testing, exhaustive only where stated",
     "go-statemachine / go-statestore / go-ds-versioning are modelled (coq/model/Machine.v), not verified",
@@ -140,6 +147,13 @@ PROPS = {
         "partial: graphsync's contract (a request reported complete has delivered every selected block; both ends report each block once with the same size) is assumed, so 'the receiver holds the data' and 'totals agree' are exercised by the e2e test only; interrupted transfers (link cut after k data events, either or both processes stopped and started again on their datastores, restart by either side, a second cut) are in the e2erestart suite; the node model's tie to the code is differential testing",
         corr=NODE_CORR + ["corr/CrashCorr.v", "corr/RaceCorr.v"], level="proof"),
 }
+
+HANDLERS_NOTE = (" The handler programs these theorems rest on are additionally REGENERATED from the Go source on every run "
+                 "(tools/dt2coq/handlers.go -> gen/GenHandlers.v) and proved to run exactly like Node.v's programs for every interpreter "
+                 "state (proofs/HandlerEq.v; restated in the property file as ..._are_the_sources), so a change to one of those functions "
+                 "that is not behaviour-preserving breaks a proof obligation of this property even when no suite produces the input on which it matters.")
+for _p in ("C01", "C02", "C03", "C04", "C05", "C07", "C08", "C09", "C10", "C11", "C18", "C19"):
+    PROPS[_p]["technique"] += HANDLERS_NOTE
 
 NOT_APPLICABLE = {}
 
